@@ -76,7 +76,22 @@ class ChildMixed(PrefixMixin):
     cmy = PrototypedFrom("mid", prefix="my")
 
 
-CHILD_CLASSES = {"Child": Child, "ChildSub": ChildSub, "ChildMixed": ChildMixed}
+DEFAULTS = {"parent": None, "mid": None}
+
+
+class ChildDflt(Child):
+    """The delegate links are never assigned: their defaults come from methods
+    that return objects which exist already (shared, not made per child)."""
+
+    def _parent_default(self):
+        return DEFAULTS["parent"]
+
+    def _mid_default(self):
+        return DEFAULTS["mid"]
+
+
+CHILD_CLASSES = {"Child": Child, "ChildSub": ChildSub, "ChildMixed": ChildMixed,
+                 "ChildDflt": ChildDflt}
 
 
 class ProtoChild(HasTraits):
